@@ -105,6 +105,9 @@ func GenSchemaDoc(c *Ctx, draft7 bool) map[string]any {
 	} else if k <= 4 {
 		root = g.clusterSchema()
 		root["x-cluster"] = true
+	} else if k <= 6 && !draft7 {
+		root = g.annotationSchema(2)
+		root["x-annot"] = true
 	} else {
 		root = g.schema(3, false)
 	}
@@ -228,6 +231,103 @@ func (g *schemaGen) cluster() map[string]any {
 	}
 }
 
+// GenAnnotationDoc returns a 2020-12 document built by annotationSchema.
+func GenAnnotationDoc(c *Ctx) map[string]any {
+	g := &schemaGen{c: c}
+	root := g.annotationSchema(2)
+	root["x-annot"] = true
+	return root
+}
+
+// annotationSchema builds a 2020-12 schema whose verdict hinges on annotations: an
+// unevaluatedProperties (or unevaluatedItems) keyword next to in-place applicators (allOf, anyOf,
+// oneOf, if/then/else, dependentSchemas, $ref-free nesting of the same) whose branches each
+// evaluate some of the members. Whether an instance built from the names the branches speak
+// about passes depends on every successful branch having handed up what it evaluated.
+func (g *schemaGen) annotationSchema(depth int) map[string]any {
+	c := g.c
+	if c.W(4) == 0 {
+		// the array flavour
+		branch := func() map[string]any {
+			switch c.W(4) {
+			case 0:
+				return map[string]any{"prefixItems": []any{map[string]any{}, map[string]any{"type": pick(c, typePool)}}}
+			case 1:
+				return map[string]any{"contains": map[string]any{"type": pick(c, typePool)}}
+			case 2:
+				return map[string]any{"prefixItems": []any{map[string]any{}}}
+			default:
+				return map[string]any{"items": map[string]any{"type": pick(c, typePool)}}
+			}
+		}
+		s := map[string]any{"x-annot-array": true}
+		s[pick(c, []string{"allOf", "anyOf"})] = []any{branch(), branch()}
+		if c.W(2) == 0 {
+			s["prefixItems"] = []any{map[string]any{}}
+		}
+		if c.W(3) == 0 {
+			s["unevaluatedItems"] = map[string]any{"type": pick(c, typePool)}
+		} else {
+			s["unevaluatedItems"] = false
+		}
+		return s
+	}
+	k := func() string { return pick(c, propPool) }
+	var branch func(d int) map[string]any
+	branch = func(d int) map[string]any {
+		switch c.W(8) {
+		case 0:
+			return map[string]any{"properties": map[string]any{k(): map[string]any{}}}
+		case 1:
+			return map[string]any{"properties": map[string]any{k(): map[string]any{}, k(): map[string]any{"type": pick(c, typePool)}}}
+		case 2:
+			return map[string]any{"properties": map[string]any{k(): map[string]any{}}, "required": []any{k()}}
+		case 3:
+			return map[string]any{"patternProperties": map[string]any{pick(c, patternPool): map[string]any{}}}
+		case 4:
+			if d > 0 {
+				return map[string]any{"allOf": []any{branch(d - 1), branch(d - 1)}}
+			}
+			return map[string]any{"properties": map[string]any{k(): map[string]any{}}}
+		case 5:
+			if d > 0 {
+				return map[string]any{"anyOf": []any{branch(d - 1), branch(d - 1)}}
+			}
+			return map[string]any{}
+		case 6:
+			return map[string]any{"properties": map[string]any{k(): map[string]any{}}, "unevaluatedProperties": c.W(2) == 0}
+		default:
+			return map[string]any{"properties": map[string]any{k(): map[string]any{}, k(): map[string]any{}, k(): map[string]any{}}}
+		}
+	}
+	s := map[string]any{}
+	for _, kw := range subset(c, []int{0, 1, 2, 3, 4}, 1, 3) {
+		switch kw {
+		case 0:
+			s["allOf"] = []any{branch(depth), branch(depth)}
+		case 1:
+			s["anyOf"] = []any{branch(depth), branch(depth), branch(depth)}
+		case 2:
+			s["oneOf"] = []any{branch(depth), map[string]any{"required": []any{"never-there"}}}
+		case 3:
+			s["if"] = branch(0)
+			s["then"] = branch(depth)
+			s["else"] = branch(depth)
+		case 4:
+			s["dependentSchemas"] = map[string]any{k(): branch(depth), k(): branch(depth)}
+		}
+	}
+	if c.W(2) == 0 {
+		s["properties"] = map[string]any{k(): map[string]any{}}
+	}
+	if c.W(4) == 0 {
+		s["unevaluatedProperties"] = map[string]any{"type": pick(c, typePool)}
+	} else {
+		s["unevaluatedProperties"] = false
+	}
+	return s
+}
+
 // clusterSchema builds an object schema whose map-valued keywords hold
 // interacting entries (the order of evaluation of the entries is Go map order).
 func (g *schemaGen) clusterSchema() map[string]any {
@@ -293,9 +393,59 @@ func (g *schemaGen) clusterSchema() map[string]any {
 	return s
 }
 
+// mentionedProps lists the property names that appear under "properties", "required",
+// "dependentSchemas", "dependentRequired" or "dependencies" anywhere in s.
+func mentionedProps(s map[string]any) []string {
+	set := map[string]bool{}
+	var walk func(v any)
+	walk = func(v any) {
+		switch x := v.(type) {
+		case map[string]any:
+			for k, e := range x {
+				switch k {
+				case "properties", "dependentSchemas", "dependentRequired", "dependencies":
+					if pm, ok := e.(map[string]any); ok {
+						for n := range pm {
+							set[n] = true
+						}
+					}
+				case "required":
+					if rs, ok := e.([]any); ok {
+						for _, r := range rs {
+							if n, ok := r.(string); ok {
+								set[n] = true
+							}
+						}
+					}
+				}
+				walk(e)
+			}
+		case []any:
+			for _, e := range x {
+				walk(e)
+			}
+		}
+	}
+	walk(s)
+	return sortedKeys(set)
+}
+
 // clusterInstance builds an object over the same key pool with object values.
-func clusterInstance(c *Ctx) any {
+func clusterInstance(c *Ctx, s map[string]any) any {
 	m := map[string]any{}
+	if names := mentionedProps(s); len(names) > 0 && c.W(2) == 0 {
+		// only keys that the schema's own applicators speak about: whether such an object passes
+		// additional/unevaluatedProperties depends on which of them marked which key as evaluated
+		for _, k := range subset(c, names, 1, len(names)) {
+			switch c.W(3) {
+			case 0:
+				m[k] = map[string]any{}
+			default:
+				m[k] = GenValue(c, 0)
+			}
+		}
+		return m
+	}
 	if c.W(2) == 0 {
 		// homogeneous values: "all properties have type T" style subschemas pass
 		t := pick(c, typePool)
@@ -602,7 +752,28 @@ func (g *schemaGen) logic(s map[string]any, depth int, descended bool) {
 // the verdicts are "valid".
 func GenInstanceFor(c *Ctx, s map[string]any, depth int) any {
 	if _, ok := s["x-cluster"]; ok && c.W(5) != 0 {
-		return clusterInstance(c)
+		return clusterInstance(c, s)
+	}
+	if _, ok := s["x-annot"]; ok && c.W(6) != 0 {
+		if _, arr := s["x-annot-array"]; arr {
+			n := c.W(4)
+			a := make([]any, n)
+			for i := range a {
+				a[i] = GenValue(c, 0)
+			}
+			return a
+		}
+		names := mentionedProps(s)
+		m := map[string]any{}
+		if len(names) > 0 {
+			for _, k := range subset(c, names, 1, len(names)) {
+				m[k] = GenValue(c, 0)
+			}
+		}
+		if c.W(5) == 0 {
+			m[pick(c, propPool)] = GenValue(c, 0)
+		}
+		return m
 	}
 	if _, ok := s["x-wide"]; ok && c.W(5) != 0 {
 		return wideInstance(c, s)
